@@ -270,7 +270,10 @@ class BlockDiagNormal(ssm_impl_api.AbstractTreeNormal[BlockDiagTreeFlatten]):
         if self.mean_flat.ndim > 2:
             return func.vmap(BlockDiagNormal._std_batched)(self)
 
-        std_flat = func.vmap(func.vmap(linalg.vector_norm))(self.cholesky_flat)
+        # Row norms via qr_r (like the dense model): differentiable at zero variance (see #668)
+        d, n, _n = self.cholesky_flat.shape
+        rows = self.cholesky_flat.reshape((d * n, -1, 1))
+        std_flat = np.abs(func.vmap(linalg.qr_r)(rows)).reshape((d, n))
         return self.tree_flatten.unflatten_array(std_flat)
 
     def residual_whitened_rms_tree(self, u, /):
